@@ -610,10 +610,10 @@ func runC15(res *vh.Result) {
 		"periods are hours, so no real ticker fires during a case; ticks are injected as the event a ticker posts",
 		"the barrier is a sentinel registration whose query/report proves all earlier events were consumed",
 	}
-	ncomp := vh.Tiered(1500, 30000)
+	ncomp := vh.Tiered(1500, 100000)
 	counts := []int{1, 55, 56, 57, 112, 113, 1000, 2, 111, 168, 169}
-	ndrv := vh.Tiered(len(counts)+60, len(counts)+2000)
-	nreal := vh.Tiered(8, 64)
+	ndrv := vh.Tiered(len(counts)+60, len(counts)+6000)
+	nreal := vh.Tiered(8, 96)
 	res.Cases(ncomp+ndrv+nreal, func(i int, rng *vh.Rng) {
 		if i >= ncomp+ndrv {
 			c15RealTicker(res, i, rng)
